@@ -14,7 +14,8 @@ from sim.rawclient import RawSession, RecordingServer, parse_failure
 PROPERTY = "C16"
 LEVEL = "exploration"
 BUDGET = {"quick": {"runs": 1600, "wall": 50}, "thorough": {"runs": 60000, "wall": 560}}
-RULE = ("Each run: 1-24 USERAUTH_REQUESTs (+ interactive responses) with users from {alice, bob, carol}, services from "
+RULE = ("Each run: 1-24 USERAUTH_REQUESTs (+ interactive responses, repeated SERVICE_REQUESTs) with users from {alice, bob, "
+        "carol, case/space variants, the empty name}, services from "
         "{ssh-connection, ssh-userauth, junk}, methods none/password/publickey(probe, signed)/keyboard-interactive; "
         "callback verdicts drawn from per-run weights; requests sent singly or in pipelined bursts.")
 COMPONENTS = {"real": ["server Transport + AuthHandler unmodified; client is a real Transport emitting hand-built auth messages"],
@@ -38,10 +39,18 @@ def scenario(sim):
     p_other_service = (0.0, 0.03, 0.2)[sim.choose(3)]
     key = ssh.key("ed25519_1")
     ops = []
+    # the name the connection gets pinned to is usually alice, sometimes the empty string
+    base = ("alice", "alice", "alice", "")[sim.choose(4)]
+    p_service_again = (0.0, 0.0, 0.1)[sim.choose(3)]
     for i in range(n):
-        user = "alice"
+        user = base
         if sim.choose_bool(p_other_user):
-            user = ("bob", "carol", "Alice", "alice ")[sim.choose(4)]
+            user = [u for u in ("bob", "carol", "Alice", "alice ", "alice", "") if u != base][sim.choose(5)]
+        if i and sim.choose_bool(p_service_again) and s.tc.is_active():
+            # the client asks for the authentication service once more in the middle of the dialogue
+            s.service_request()
+            ops.append(("service-request-again",))
+            sim.probe("service_request_repeated")
         service = "ssh-connection"
         if sim.choose_bool(p_other_service):
             service = ("ssh-userauth", "junk", "")[sim.choose(3)]
